@@ -134,6 +134,19 @@ func (c *Config) oracle(pc PoolCfg, deadline time.Duration) string {
 			return fmt.Sprintf("deadline of %v exceeded (deadlock in Wait?)", deadline)
 		}
 	}
+	if c.Site == "saga" {
+		// round 7: every epoch evaluates exactly the samples it drew (multiset), on this pool
+		ch := make(chan string, 1)
+		go func() { ch <- sagaEvalOracle(c.Saga, pc) }()
+		select {
+		case m := <-ch:
+			if m != "" {
+				return m
+			}
+		case <-time.After(deadline):
+			return fmt.Sprintf("deadline of %v exceeded (deadlock in Wait?)", deadline)
+		}
+	}
 	ref, rerr, rpn := c.run(PoolCfg{K: 1})
 	type res struct {
 		obs []float64
@@ -166,7 +179,7 @@ func (c *Config) oracle(pc PoolCfg, deadline time.Duration) string {
 			// nothing lost, nothing counted twice, independently of the model: an unweighted observation counts like one
 			// of log-weight 0 (the two branches of NewObservation use different accumulators: counts vs. log-sums)
 			alt := *c.Batch
-			alt.G = make([]float64, alt.n())
+			alt.G = make(JFloats, alt.n())
 			if ao, apn := runBatch(&alt, PoolCfg{K: 1}); apn == "" {
 				switch {
 				case ao.Err != r.err:
@@ -329,6 +342,45 @@ func shrinkConfig(c *Config, pc PoolCfg, fails func(*Config) bool) *Config {
 					}
 				}
 				cc := &Config{Site: "normal", Nm: &cand}
+				if fails(cc) {
+					cur, changed = cc, true
+					break
+				}
+			}
+		case "saga":
+			// round 7: fewer epochs, then fewer samples
+			if cur.Saga.Epochs > 1 {
+				cand := *cur.Saga
+				cand.Epochs = 1
+				if cc := (&Config{Site: "saga", Saga: &cand}); fails(cc) {
+					cur, changed = cc, true
+					continue
+				}
+			}
+			n := len(cur.Saga.X)
+			for l := n - 1; l >= 0 && n > 1; l-- {
+				cand := *cur.Saga
+				cand.X = append(append([][]float64{}, cur.Saga.X[:l]...), cur.Saga.X[l+1:]...)
+				cc := &Config{Site: "saga", Saga: &cand}
+				if fails(cc) {
+					cur, changed = cc, true
+					break
+				}
+			}
+		case "batch":
+			// round 7: fewer observations (a vector observation is D consecutive entries)
+			d := 1
+			if cur.Batch.Kind == "vnormal" {
+				d = cur.Batch.D
+			}
+			n := cur.Batch.n()
+			for l := n - 1; l >= 0 && n > 2; l-- {
+				cand := *cur.Batch
+				cand.X = append(append([]float64{}, cur.Batch.X[:l*d]...), cur.Batch.X[(l+1)*d:]...)
+				if cur.Batch.G != nil {
+					cand.G = append(append(JFloats{}, cur.Batch.G[:l]...), cur.Batch.G[l+1:]...)
+				}
+				cc := &Config{Site: "batch", Batch: &cand}
 				if fails(cc) {
 					cur, changed = cc, true
 					break
